@@ -67,6 +67,8 @@ def install(it):
         return all(B(it_, p == q) for p, q in zip(x, y))
     m(r'<&?\[u8\] as std::cmp::PartialEq<&?\[u8\]>>::eq', slice_eq)
     m(r'<\[u8\] as std::cmp::PartialEq>::eq', slice_eq)
+    m(r'<&?\[u8\] as std::cmp::PartialEq<&?\[u8; \d+\]>>::eq', slice_eq)
+    m(r'<\[u8\] as std::cmp::PartialEq<\[u8; \d+\]>>::eq', slice_eq)
     m(r"<std::borrow::Cow<'_, \[u8\]> as std::ops::Deref>::deref", lambda it_, c: Ref(Box_(list(deref_all(c)))))
     m(r'std::string::String::from_utf8', lambda it_, v: OK(SStr(list(v))))       # raw attribute values are kept as code points
     def unesc(it_, s):
@@ -75,3 +77,66 @@ def install(it):
     m(r'quick_xml::escape::unescape', unesc)
     m(r"std::borrow::Cow::<'_, str>::into_owned", lambda it_, c: SStr(deref_all(c.fields[0]).chars))
     it.models = ms + list(it.models)
+
+# ---------------------------------------------------------------- event stream: writer recorder -> reader replay
+import glob, os
+def event_order():
+    """variant order of quick_xml::events::Event, read from the crate source the build uses"""
+    for p in sorted(glob.glob(os.path.expanduser('~/.cargo/registry/src/*/quick-xml-0.37*/src/events/mod.rs'))):
+        txt = open(p).read(); a = txt.index('pub enum Event<')
+        body = txt[a:txt.index('\n}', a)]
+        vs = re.findall(r'^\s{4}(\w+)(?:\(|,)', body, re.M)
+        if 'Start' in vs and 'Eof' in vs: return vs
+    return ['Start', 'End', 'Empty', 'Text', 'CData', 'Comment', 'Decl', 'PI', 'DocType', 'Eof']
+class TextObj:
+    def __init__(self, raw): self.raw = list(raw)          # escaped text as it stands in the XML stream
+class EndObj:
+    def __init__(self, name): self.name = name
+class XmlReader:
+    """replays the events a Recorder collected; trims text like quick-xml's Config::trim_text"""
+    def __init__(self, events, trim=True): self.events, self.i, self.trim = list(events), 0, trim
+WS_CHARS = (32, 9, 10, 13)
+def install_events(it):
+    order = event_order()
+    ms = []
+    def m(pat, fn): ms.append((re.compile(pat), fn, False))
+    m(r"quick_xml::events::BytesText::<'_>::new", lambda it_, s: TextObj(escape(it_, deref_all(s).chars)))
+    m(r"quick_xml::events::BytesEnd::<'_>::new::<.*>", lambda it_, name: EndObj(pstr(name.fields[0]) if isinstance(name, Adt) else pstr(name)))
+    m(r'quick_xml::escape::partial_escape::<.*>', lambda it_, s: Adt(1, [SStr(_partial(it_, (deref_all(s.fields[0]) if isinstance(s, Adt) else deref_all(s)).chars))]))
+    def read_event(it_, r, buf):
+        rd = deref_all(r)
+        while rd.i < len(rd.events):
+            ev = rd.events[rd.i]; rd.i += 1
+            name = ev.variant if isinstance(ev.variant, str) else order[ev.variant]
+            payload = ev.fields[0] if ev.fields else None
+            if name == 'Text':
+                raw = list(payload.raw)
+                if rd.trim:
+                    while raw and B(it_, z3.Or(*[raw[0] == w for w in WS_CHARS]) if is_sym(raw[0]) else raw[0] in WS_CHARS): raw.pop(0)
+                    while raw and B(it_, z3.Or(*[raw[-1] == w for w in WS_CHARS]) if is_sym(raw[-1]) else raw[-1] in WS_CHARS): raw.pop()
+                    if not raw: continue
+                payload = TextObj(raw)
+            return OK(Adt(order.index(name), [payload] if payload is not None else [], 'quick_xml::events::Event'))
+        return OK(Adt(order.index('Eof'), [], 'quick_xml::events::Event'))
+    m(r'quick_xml::(reader::buffered_reader::<impl quick_xml::Reader<.*>>|Reader::<.*>)::read_event_into', read_event)
+    m(r'quick_xml::Reader::<.*>::config_mut', lambda it_, r: r)
+    def trim_text(it_, r, flag): deref_all(r).trim = flag; return []
+    m(r'quick_xml::reader::Config::trim_text', trim_text)
+    m(r'quick_xml::Reader::<.*>::buffer_position', lambda it_, r: 0)
+    def text_unescape(it_, t):
+        r = unescape(it_, deref_all(t).raw)
+        return ERR('EscapeError') if r is None else OK(Adt(1, [SStr(r)]))
+    m(r"quick_xml::events::BytesText::<'_>::unescape", text_unescape)
+    m(r"quick_xml::events::(BytesStart|BytesEnd)::<'_>::name", lambda it_, e: [ord(c) for c in deref_all(e).name])
+    m(r"<std::borrow::Cow<'_, str> as std::string::ToString>::to_string", lambda it_, c: SStr(deref_all(deref_all(c).fields[0]).chars))
+    m(r'std::vec::Vec::<u8>::clear', lambda it_, v: [])
+    it.models = ms + list(it.models)
+def _partial(it, cs):
+    out = []
+    for c in cs:
+        hit = None
+        for code in (60, 62, 38):
+            if B(it, c == code): hit = ENT[code]; break
+        if hit: out += [ord(x) for x in hit]
+        else: out.append(c)
+    return out
